@@ -30,8 +30,10 @@ EXPLANATION = (
     "positions are char_indices() indices or expr.len(), Parser.offset / Ast offsets / Context.offset derive only from "
     "those (or 0), Function.offset is the position of the consumed '(': all byte positions on character boundaries; "
     "(4) units — JmespathError::new counts characters whose byte index (char_indices) is below the byte offset; no "
-    "Chars-iterator take/skip/nth is fed a byte quantity; newline resets the column and bumps the line. Not decided: "
-    "message rendering and caret placement."
+    "Chars-iterator take/skip/nth is fed a byte quantity; newline resets the column and bumps the line; (5) rendering — the message is one "
+    "write of reason, line, column and the location block; the location block gets exactly one caret line (`column` blanks "
+    "and a '^'): inside the scan only on the newline whose running count equals line + 1 (an equality on a counter bumped "
+    "before each test), otherwise once after the scan, the two linked by a flag set exactly where the inner caret is placed."
 )
 ASSUMPTIONS = [
     "serde_json::Number::as_f64 is Some for every Number when arbitrary_precision is off (checked in the manifest)",
@@ -46,6 +48,7 @@ def run(ctx):
     ctx.attempt("check_offset_typestate", check_offset_typestate, ctx, lib)
     ctx.attempt("check_offset_provenance", check_offset_provenance, ctx, lib)
     ctx.attempt("check_units", check_units, ctx, lib)
+    ctx.attempt("check_rendering", check_rendering, ctx, lib)
     # the dead-ness of the builtins' fabricated Parse errors (classification rule) rests on the validator having
     # checked every argument against its declared kind: the arity / per-position / kind-predicate rows (shared with C06)
     from . import c06
@@ -797,3 +800,180 @@ def check_units(ctx, lib):
         ok = good and seen_line_inc and seen_col_inc and seen_col_reset
         ok = ok and o.of_operand(vals["offset"]) == {("param", 2)} and o.of_operand(vals["reason"]) == {("param", 3)} and o.of_operand(vals["expression"]) == {("param", 1)}
     ctx.check(ok, rule, "line-column-bookkeeping", "a newline increments the line and resets the column, any other character increments the column; the error stores (offset, line, column, expression, reason) as computed", b.span)
+
+
+# =============================================================================================
+DISPLAY = "<errors::JmespathError as std::fmt::Display>::fmt"
+CARAT = "errors::inject_carat"
+P1, P2 = ("param", 1), ("param", 2)
+
+
+def _plus_one(t, base_ok):
+    """t is `x + 1` (checked or not) for an x accepted by base_ok."""
+    if t[0] == "field" and t[2] == "0" and t[1][0] == "bin" and t[1][1] == "AddWithOverflow":
+        t = ("bin", "Add", t[1][2], t[1][3])
+    return t[0] == "bin" and t[1] == "Add" and t[3] == ("const", 1) and base_ok(t[2])
+
+
+def check_rendering(ctx, lib):
+    """`a caret under that column`: the rendered location block gets exactly one caret line, after the line the error is on,
+    padded with `column` blanks."""
+    rule = "rendering"
+    b = ctx.fn(DISPLAY, rule=rule)
+    c = ctx.fn(CARAT, rule=rule)
+    if b is None or c is None:
+        return
+    # ---- the caret line itself: `column` blanks, then '^'
+    co = Origins(c, lib)
+    pushes = [(blk, co.of_operand(t["args"][1])) for blk, t in c.calls()
+              if t["callee"] in ("std::string::String::push_str", "std::string::String::push") and co.of_operand(t["args"][0]) == {P2}]
+    pads = [(blk, ts) for blk, ts in pushes if term_mentions(ts, lambda x: x == P1)]
+    marks = [(blk, ts) for blk, ts in pushes if any(x[0] == "const" and isinstance(x[1], str) and "^" in x[1] for x in ts)]
+
+    def plain_count(ts):
+        # the column is used as a count as it stands: no arithmetic on it, a range over it starts at 0 and excludes its end
+        if term_mentions(ts, lambda x: x[0] in ("bin", "un", "cast") and term_mentions(list(x[1:]), lambda y: y == P1)):
+            return False
+        if term_mentions(ts, lambda x: x[0] == "call" and "RangeInclusive" in x[1]):
+            return False
+        for_range = []
+        term_mentions(ts, lambda x: for_range.append(x) if x[0] == "agg" and "ops::Range" in x[1] else None)
+        return all(x[1] == "std::ops::Range::Range" and x[2] == (fs({("const", 0)}), fs({P1})) for x in for_range)
+    ok = len(pads) == 1 and len(marks) == 1 and plain_count(pads[0][1]) and c.dominates(pads[0][0], marks[0][0]) and \
+        all(x[0] == "const" and x[1].count("^") == 1 for x in marks[0][1])
+    ctx.check(ok, rule, "caret-line", "the caret line is `column` blanks (the count as stored, from 0, end excluded) followed by one '^'", c.span)
+
+    # ---- where it goes
+    o = Origins(b, lib)
+    br = Branches(b, o)
+    sites = [blk for blk, t in b.calls() if t["callee"] == CARAT]
+    cols = all(o.of_operand(b.blocks[s]["term"]["args"][0]) == {("field", P1, "column")} for s in sites)
+    ctx.check(bool(sites) and cols, rule, "caret-column", "every caret line is made for self.column", b.span)
+    cyc = cfg_cycles(b)
+    why = None
+    if len(cyc) != 1:
+        why = "the scan over the expression is not a single loop"
+    else:
+        loop = set(cyc[0])
+        inner = [s for s in sites if s in loop]
+        outer = [s for s in sites if s not in loop]
+        rets = [i for i in sorted(b.reachable()) if b.blocks[i]["term"]["k"] == "return"]
+        if not inner or not outer or len(rets) != 1:
+            why = "expected a caret inside the scan (after the error's line) and one after it (error on the last line)"
+    if why is None:
+        sw = {sb: (br.cond(sb), br.bool_edges(sb)) for sb, _ in br.switches()}
+        # (a) inside the scan: only right after a newline character ...
+        newline = [(sb, be[0]) for sb, (cs, be) in sw.items() if sb in loop and be and cs and
+                   all(x[0] == "bin" and x[1] == "Eq" and x[3] == ("const", 10) for x in cs)]
+        # (b) ... and only when the count of newlines seen equals line + 1 — an equality with a counter that moves between
+        # any two tests, so at most once
+        hits = []
+        for sb, (cs, be) in sw.items():
+            if sb not in loop or not be or not cs:
+                continue
+            ctr = set()
+            form = set()
+            for x in cs:
+                if not (x[0] == "bin" and x[1] == "Eq"):
+                    form.add("other")
+                    continue
+                l, r = x[2], x[3]
+                if term_mentions(r, lambda y: y[0] == "cycle") or term_mentions(l, lambda y: y == ("field", P1, "line")):
+                    l, r = r, l
+                if r == ("field", P1, "line"):
+                    d = 0
+                elif _plus_one(r, lambda y: y == ("field", P1, "line")):
+                    d = 1
+                else:
+                    form.add("other")
+                    continue
+                if l[0] == "const" and isinstance(l[1], int):
+                    form.add(("init", l[1], d))
+                elif _plus_one(l, lambda y: y[0] == "cycle"):
+                    base = l[1][2] if l[0] == "field" else l[2]
+                    ctr.add(base[1])
+                    form.add(("step", d))
+                else:
+                    form.add("other")
+            if "other" in form or len(ctr) != 1:
+                continue
+            hits.append((sb, be, next(iter(ctr)), form))
+        if len(hits) != 1 or not newline:
+            why = "no single `newlines seen == self.line + 1` equality test guards the caret inside the scan"
+    if why is None:
+        sb, be, ctr, form = hits[0]
+        inits = {f[1] for f in form if f[0] == "init"}
+        ds = {f[-1] for f in form}
+        incs = {wb for wb, wi, rv in b.assigns_to(ctr) if wb in loop}
+        before = bool(incs) and all(blocks_separate(b, incs, sb, start=s) for s in b.normal_succs(sb) if s in loop)
+        # newlines seen (this one included) = counter - init when it is bumped before the test
+        good = len(inits) == 1 and len(ds) == 1 and before and next(iter(ds)) - next(iter(inits)) == 1
+        good = good and all(any(edge_dominates(b, (nb, nt), i) for nb, nt in newline) for i in incs)
+        good = good and all(edge_dominates(b, (sb, be[0]), s) and any(edge_dominates(b, (nb, nt), s) for nb, nt in newline) for s in inner)
+        if not good:
+            why = "the caret inside the scan is not guarded by `newlines seen (counted from 0, this one included) == self.line + 1`"
+    if why is None:
+        # (c) after the scan: exactly when no caret was placed inside it — a flag, false before the scan, set where (and only
+        # where) the inner caret is placed
+        flag = None
+        for sb2, (cs, be2) in sw.items():
+            if sb2 in loop or not be2 or not cs or not cs <= {("const", 0), ("const", 1)}:
+                continue
+            if all(edge_dominates(b, (sb2, be2[1]), s) for s in outer):
+                d = b.blocks[sb2]["term"]["discr"]
+                from ..analysis import copy_root
+                flag = (sb2, be2, copy_root(b, d["l"]))
+        if flag is None:
+            # or by the final newline count itself: with the counter running i0+1, i0+2, .. the equality above was hit
+            # exactly when the final count reached line + d, so the fallback must be taken exactly when it stayed below
+            FLIP = {"Lt": "Gt", "Le": "Ge", "Gt": "Lt", "Ge": "Le"}
+            good = False
+            for sb2, (cs, be2) in sw.items():
+                if sb2 in loop or not be2 or not cs:
+                    continue
+                edges = set()
+                for x in cs:
+                    e = None
+                    if x[0] == "bin" and x[1] in FLIP:
+                        op, l, r = x[1], x[2], x[3]
+                        if term_mentions(l, lambda y: y == ("field", P1, "line")):
+                            op, l, r = FLIP[op], r, l
+                        k = 0 if r == ("field", P1, "line") else 1 if _plus_one(r, lambda y: y == ("field", P1, "line")) else None
+                        is_ctr = (l[0] == "const" and l[1] in inits) or _plus_one(l, lambda y: y == ("cycle", ctr))
+                        if k is not None and is_ctr:
+                            # counter < line + bound, on which edge
+                            bound, edge = {"Lt": (k, 0), "Le": (k + 1, 0), "Ge": (k, 1), "Gt": (k + 1, 1)}[op]
+                            e = (bound, edge)
+                    edges.add(e)
+                if len(edges) == 1 and None not in edges:
+                    bound, edge = next(iter(edges))
+                    if bound == next(iter(ds)) and all(edge_dominates(b, (sb2, be2[edge]), s) for s in outer) and \
+                            blocks_separate(b, set(outer), rets[0], start=be2[edge]):
+                        good = True
+            if not good:
+                why = "the caret after the scan is guarded neither by a `no caret placed yet` flag nor by `final newline count < self.line + 1`"
+        else:
+            sb2, be2, fl = flag
+            ws = [(wb, rv) for wb, wi, rv in b.assigns_to(fl) if wi != "term"]
+            sets = {wb for wb, rv in ws if rv["k"] == "use" and rv["op"].get("k") == "const" and rv["op"].get("int") == 1}
+            clears = {wb for wb, rv in ws if rv["k"] == "use" and rv["op"].get("k") == "const" and rv["op"].get("int") == 0}
+            head = min(loop)
+            good = len(ws) == len(sets) + len(clears) and bool(sets) and bool(clears)
+            good = good and all(wb not in loop and b.dominates(wb, head) for wb in clears) and sets <= loop
+            # set <=> caret placed, within one pass of the loop body
+            good = good and all(any(b.dominates(f, s) or b.dominates(s, f) for f in sets) for s in inner)
+            good = good and all(any(b.dominates(f, s) or b.dominates(s, f) for s in inner) for f in sets)
+            good = good and blocks_separate(b, set(outer), rets[0], start=be2[1])
+            if not good:
+                why = "the `caret placed` flag is not set exactly where the inner caret is placed, or the fallback caret can be skipped"
+    ctx.check(why is None, rule, "caret-once", "exactly one caret line: inside the scan right after the newline that ends line self.line "
+              "(an equality on the running newline count), otherwise once after the scan" + (f" — {why}" if why else ""), b.span)
+    # ---- what is written
+    wf = [t for _, t in b.calls() if t["callee"].endswith("::write_fmt") or t["callee"].endswith("::write_str")]
+    shown = set()
+    for _, t in b.calls():
+        if "Argument" in t["callee"] and t["callee"].endswith("new_display"):
+            shown |= {strip_through(x) for x in o.of_operand(t["args"][0])}
+    want = {("field", P1, "reason"), ("field", P1, "line"), ("field", P1, "column")}
+    ctx.check(len(wf) == 1 and want <= shown and len(shown) == 4, rule, "message-parts",
+              f"one write of the reason, the line, the column and the location block (found {fmt_terms(shown)[:120]})", b.span)
